@@ -388,11 +388,44 @@ CHECKS['C20'] = dict(
     assumptions=['reference semantics in refs/gen_conf.py follow the doc comments of qconfig.c / qaconf.c and examples/; undocumented forms are not generated (lines without separator, undefined ${name}, ${!cmd}, blanks before ">", +signed numbers, callbacks inside unknown sections)',
                  'asan build: memory errors on well-formed input are reported as well'])
 
+
+def c17_pre(tier, seed, bdir):
+    import subprocess, sys, os
+    from vf import VERIF, Inconclusive
+    n = 1500 if tier == 'thorough' else 300
+    r = subprocess.run([sys.executable, os.path.join(VERIF, 'refs', 'gen_conf.py'), os.path.join(bdir, 'conf'), str(seed), str(n), str(n)],
+                       stdout=subprocess.PIPE, stderr=subprocess.STDOUT, text=True)
+    if r.returncode != 0:
+        raise Inconclusive('document generator failed: ' + r.stdout[-2000:])
+
+
+def c17_jobs(tier, seed):
+    t = tier == 'thorough'
+    W = ('alloc', 'popen')
+    js = [Job('h_parse', 'asan', wraps=W, args=['--cases-dir', '{bdir}/conf', '--maxlen', '7' if t else '5', '--mutations', '400000' if t else '10000'], env={'LSAN_OPTIONS': 'detect_leaks=0', 'ASAN_OPTIONS_EXTRA': 'detect_leaks=0'})]
+    return js
+
+
+CHECKS['C17'] = dict(
+    title='decoders and parsers memory-safe and terminating on arbitrary input', level='exploration',
+    pre=c17_pre, jobs=c17_jobs,
+    rule='evaluation = one call of qurl_decode / qbase64_decode / qhex_decode / qparse_queries / qconfig_parse_str / qconfig_parse_file / qaconf parse on an input in an exactly-sized heap buffer (file parsers: memfd or scratch file) '
+         'under ASan+UBSan with a 2 s CPU budget, allocation-count budget (20000; INI parser 4000+|input|/4) and live-bytes budget 64*|input|+1 MiB; in-place decoders additionally: returned length <= input length and NUL at that length. '
+         'Inputs: (a) every string up to length L (quick 5, thorough 7; hex L+1, INI file form L-1) over the significant bytes of each format; (b) generated INI / Apache-style documents (refs/gen_conf.py) and random decoder inputs, mutated: truncate, duplicate, delete, bit flips, '
+         'inserted quotes/brackets/escapes, trailing backslash, 4095/4096/9000-byte lines, self- and mutually-referential ${..}, hostile @INCLUDE. ${!cmd} is neutralised by a popen interposer. distinct = distinct inputs.',
+    require=['inputs:qurl_decode', 'inputs:qbase64_decode', 'inputs:qhex_decode', 'inputs:qparse_queries', 'inputs:qconfig_parse_str', 'inputs:qconfig_parse_file', 'inputs:qaconf_parse',
+             'mutated_documents', 'branch:url_escape_at_end', 'branch:hex_odd_length', 'branch:apache_unclosed_quote', 'branch:apache_unclosed_section', 'branch:ini_cyclic_reference', 'branch:ini_include',
+             'results_delivered', 'errors_reported'],
+    assumptions=['gcc 12 ASan/UBSan; uninitialised reads are only visible to the valgrind job of the thorough tier',
+                 '@INCLUDE cycles are not generated (the statement lists recursive ${variables}, not recursive files)',
+                 'a hang is keyed expansion-cycle iff an independent port of the documented ${..} rewriting semantics with round/size limits does not reach a fixpoint on that input'])
+
 # --------------------------------------------------------------------------- manifest texts
 NOT_APPLICABLE = {}
 DESIGN_REF = {}
 LEVEL_NOTE = {}
 TECHNIQUE = {
+    'C17': 'ASan/UBSan on exact-size inputs + CPU/allocation/byte budgets (bounded-progress watchdog) over exhaustive short strings and grammar-aware mutation; valgrind and libFuzzer in the thorough tier',
     'C20': 'grammar-based document generation with reference interpreters on the abstract document; recorded callback stream / entry chain compared verbatim',
     'C19': 'reference-definition oracles + guard bytes + ASan on exact-size buffers, exhaustive over all strings up to length 5/7 over significant alphabets',
     'C18': 'differential oracle against independent reference hashes over a complete (length, alignment, content class) grid + address/tail independence under ASan with exact-end buffers',
@@ -414,6 +447,7 @@ TECHNIQUE = {
     'C04': 'reference-model floor oracle + continuation multiset audit; CPU watchdog',
 }
 LEVEL_TEXT = {
+    'C17': 'Every decoder and parser is executed on all strings up to length 5/6 over the significant bytes of its format and on tens of thousands of mutated generated documents, in exactly-sized heap buffers under ASan/UBSan with CPU, allocation and memory budgets as the termination oracle.',
     'C20': 'Thousands of generated INI and Apache-style documents (valid and single-fault) are parsed by the real parsers; entry lists, callback streams, return counts and error lines are compared with reference results derived from the abstract documents.',
     'C19': 'Each routine is compared with an independent reference definition on every string up to length 5 (7 thorough) over the significant bytes, every buffer size for the bounded copies and every (src, token, word) triple for replace, with destinations in exact-size blocks under ASan and guard bytes.',
     'C18': 'Every function is compared with an independent reference on the complete grid of lengths 1..600 x 8 alignments x 5 content classes (and large sizes, file ranges), at two placements with different trailing bytes, under ASan with buffers ending at the allocation end.',
